@@ -3,6 +3,7 @@ CONSTANTS
   Clients <- MC2Clients
   Reqs <- MC2ReqsB
   Bg = "none"
+  Handoff = FALSE
 INVARIANT RecvMutex
 INVARIANT CondMutex
 INVARIANT DispatchedOnce
